@@ -288,9 +288,14 @@ def phase_mc_mig(ctx, thorough):
     w = vlib.NCPU // 2 if thorough else 3
     r = ctx.tlc_expect_ok(['pmc'], 'MC_Migration.tla', 'MC_Migration.cfg', coverage=True, timeout=900, workers=w)
     ctx.log('MC_Migration (2 GPUs, 3 pages, 2 requests, intended design): %d distinct states, depth %d' % (r.distinct, r.depth))
-    zeros = c19cp.final_cov_zero(r)
+    zeros = [z for z in c19cp.final_cov_zero(r) if 'MCHost' not in z]   # host actions: MC_Migration_host.cfg
     if zeros:
         raise vlib.Infra('vacuity: actions never taken in MC_Migration: %s' % zeros)
+    r = ctx.tlc_expect_ok(['pmc'], 'MC_Migration.tla', 'MC_Migration_host.cfg', timeout=900, workers=w)
+    ctx.log('MC_Migration_host (one handshake; the host allocates / writes / frees twice meanwhile): %d distinct states' % r.distinct)
+    r = ctx.tlc(['pmc'], 'MC_Migration.tla', 'MC_Migration_relsrc.cfg', timeout=900, workers=w)
+    if 'HeldApart' not in r.violated:
+        raise vlib.Infra('MC_Migration_relsrc: releasing the source frame of a pending copy must violate HeldApart (%s %s)' % (r.violated, r.error))
     # the as-implemented reply slot is expected to lose a reply in the model (known finding C19-mmu-reply-overwritten)
     r = ctx.tlc(['pmc'], 'MC_Migration.tla', 'MC_Migration_asimpl.cfg', timeout=900, workers=w)
     if 'NoReplyDropped' not in r.violated:
@@ -299,7 +304,7 @@ def phase_mc_mig(ctx, thorough):
     if thorough:
         r = ctx.tlc_expect_ok(['pmc'], 'MC_Migration.tla', 'MC_Migration_live.cfg', timeout=1800, workers=w)
         ctx.log('MC_Migration_live (Progress under fairness): %d distinct states' % r.distinct)
-        for cfg in ('MC_Migration_req3.cfg', 'MC_Migration_big.cfg'):
+        for cfg in ('MC_Migration_req3.cfg', 'MC_Migration_big.cfg', 'MC_Migration_host3.cfg'):
             r = ctx.tlc_expect_ok(['pmc'], 'MC_Migration.tla', cfg, workers=w, timeout=3000)
             ctx.log('%s: %d distinct states, depth %d' % (cfg, r.distinct, r.depth))
         ctx.cov['exhaustive'] = True
@@ -404,6 +409,8 @@ def phase_drv_scen(ctx, drv, thorough, acc):
 
 def phase_drv_rest(ctx, drv, thorough, acc):
     phase_drv_scen(ctx, drv, thorough, acc)
+    # memory pressure: small device memory, the application allocates / fills / frees beside the migrations
+    run_drv(ctx, drv, acc, 'press2', 200 if thorough else 40, 'pressure', 2, ctx.seed + 20)
     # scenarios exhibiting the known driver defects (accepted as soon as the fixes are applied)
     run_drv(ctx, drv, acc, 'known', 2, 'known', 2, ctx.seed)
     if thorough:
@@ -414,7 +421,9 @@ def phase_drv_rest(ctx, drv, thorough, acc):
 
 def phase_sys(ctx, drv, thorough, acc):
     run_drv(ctx, drv, acc, 'sys2', 60 if thorough else 6, 'normal', 2, ctx.seed + 10, sys=True, log2=8)
+    run_drv(ctx, drv, acc, 'sysp2', 40 if thorough else 5, 'pressure', 2, ctx.seed + 13, sys=True, log2=8)
     if thorough:
+        run_drv(ctx, drv, acc, 'press3', 100, 'pressure', 3, ctx.seed + 21)
         run_drv(ctx, drv, acc, 'sys3', 20, 'normal', 3, ctx.seed + 11, sys=True, log2=9)
         run_drv(ctx, drv, acc, 'sys2_4k', 3, 'normal', 2, ctx.seed + 12, sys=True, log2=12)
 
